@@ -206,6 +206,33 @@ def run(ctx):
     fr2 = family_runs("P1024", "I1024", "P1024-alt", "same-group-other-seeds/I1024")
     fr3 = family_runs("PEd25519", "Ed25519", "PEd25519-alt", "same-group-other-seeds/Ed25519")
     traces += (fr2 + fr3) if thorough else fr2[:8:2] + fr3[1:8:3]
+    # soak: a probe exchange is started, then more than a thousand other sessions with distinct passwords are created
+    # and started on the SAME parameter objects, then the probe is persisted, revived and finished (bounded caches)
+    for ps, g in ([("Pi23", "i23"), ("PEd25519", "Ed25519"), ("Ped37", "ed37")] if thorough else [("Pi23", "i23"), ("PEd25519", "Ed25519")]):
+        uni.paramset(ps) if ps.startswith("PEd") else None
+        G = uni.group(g)
+        q = G.order()
+        r = Run("soak-sessions/%s" % ps, uni)
+        toy = g in TOY_INT or g in TOY_CURVES
+        r.new("a", "A", ps, b"", b"a", b"b")
+        r.new("b", "B", ps, b"", b"a", b"b")
+        r.new("s", "S", ps, b"probe", b"s", b"")
+        ma, mb, ms = r.start("a", mp.stream_for(g, 3 % q)), r.start("b", mp.stream_for(g, 4 % q)), r.start("s", mp.stream_for(g, 2 % q))
+        blob_before = r.serialize("a")
+        sp = load_repo()
+        nbulk = (5000 if thorough else 2200) if toy else (1300 if thorough else 1100)
+        for k in range(nbulk):
+            cls = (sp.SPAKE2_A, sp.SPAKE2_B, sp.SPAKE2_Symmetric)[k % 3]
+            o = cls(b"bulk-%d" % k, params=uni.params[ps], entropy_f=Entropy(mp.stream_for(g, k % q)))
+            if toy or k % 25 == 0:
+                o.start()
+        blob_after = r.serialize("a")
+        if blob_before is not None and r.restore("a2", "A", ps, blob_before) is not None:
+            r.finish("a2", mb)
+        r.finish("b", ma)
+        r.finish("s", ms)
+        r.t.consts(ps)
+        traces.append(r.json())
     # interleaved sessions on the shipped sets (one thread): two exchanges on different sets, calls alternating
     for ps in ("PEd25519", "P1024", "P2048", "P3072"):
         uni.paramset(ps)
